@@ -79,3 +79,19 @@ Record wf_history (p : params) (a1fix : bool) (g : block) (h : list event) : Pro
                                b_id b1 = b_id b2 -> b1 = b2;
   wfh_announced : forall b, In (EvProcess b) h -> In (EvAttach b) h
 }.
+
+(* E3 in its general form: an address is issued before any attached block pays it (issuing may be
+   interleaved with chain events).  [owners_first] is the special case used by the generator. *)
+Definition pays (b : block) (sh : N) : Prop :=
+  exists t o, In t (b_txs b) /\ In o (t_outs t) /\ o_sh o = sh.
+
+Definition owners_before_paid (h : list event) : Prop :=
+  forall h1 sh w h2, h = h1 ++ EvOwner sh w :: h2 -> forall b, In (EvAttach b) h1 -> ~ pays b sh.
+
+Record wf_history_gen (p : params) (a1fix : bool) (g : block) (h : list event) : Prop := {
+  wfg_chain : forall s, In s (sims p a1fix (init_sim g) h) -> wf_chain (s_node s);
+  wfg_owners : owners_before_paid h;
+  wfg_blockids : forall b1 b2, In b1 (g :: blocks_of_history h) -> In b2 (g :: blocks_of_history h) ->
+                               b_id b1 = b_id b2 -> b1 = b2;
+  wfg_announced : forall b, In (EvProcess b) h -> In (EvAttach b) h
+}.
